@@ -82,3 +82,33 @@ def problemOp (j : Json) : Except String Res := do
          nontrivial := s.any Uni.isControl }
 
 end Ops
+
+namespace Ops
+
+/-- op "pubfuzz": predicate-only (the item-level presentation is not re-computed by the model;
+    its building blocks are: renderers, style layer, ansi layer).  The implementation's strings
+    must be terminal-safe and attribute-neutral, previews at most 4 lines + header…, and every
+    selector that reports a link also reports a media type. -/
+def pubFuzzOp (j : Json) : Except String Res := do
+  let impl := (j.getObjVal? "impl").toOption.getD Json.null
+  let strs : List Str := match impl.getObjVal? "strings" with
+    | .ok (Json.arr a) => a.toList.filterMap fun v => match v with | Json.str s => some s.toList | _ => none
+    | _ => []
+  let selects : List Json := match impl.getObjVal? "selects" with | .ok (Json.arr a) => a.toList | _ => []
+  let mtOk := selects.all fun s => match s with
+    | Json.arr p => !(p[1]? == some (Json.bool true) && p[3]? == some (Json.bool true))
+    | _ => true
+  -- numbers < 1 open nothing
+  let lowOk := selects.all fun s => match s with
+    | Json.arr p => match p[0]? with
+      | some (Json.num n) => n.mantissa ≥ 1 || p[1]? == some (Json.bool false)
+      | _ => true
+    | _ => true
+  let completed := match impl.getObjVal? "strings" with | .ok _ => true | _ => (impl.getObjVal? "baddoc").toOption.isSome
+  pure { model := impl,
+         preds := [("returns_normally", completed), ("safe_output", strs.all Safe.safe),
+                   ("neutral_at_line_ends", strs.all Cells.neutralAtBreaks),
+                   ("selected_link_has_media_type", mtOk), ("numbers_below_one_open_nothing", lowOk)],
+         nontrivial := strs.length ≥ 3 }
+
+end Ops
